@@ -1,6 +1,901 @@
-//! Harness for property C06 (stub: not built yet).
+//! C06 — closed, deleted, poisoned or read-only handles never write; cancel = crash.
+//!
+//! A case is a list of op lines run against a real `AndaDB` + `Collection` over `TraceStore`
+//! (recording, every backend call `Pending` once while a future is polled by hand):
+//!
+//!   setup <ndocs> <flushed 0|1> <pending-update 0|1>
+//!   op <api>             spawn the future of an API call (not polled yet)          → slot index
+//!   poll <slot>          poll it once            run <slot>   poll it to completion
+//!   drop <slot>          drop the future (cancellation)
+//!   setro <0|1>          Collection::set_read_only        dbro <0|1>   AndaDB::set_read_only
+//!   fault <suffix>       the next PUT whose path ends with <suffix> fails
+//!   sweep                call every guarded API, one after the other, on the retained Arc<Collection>
+//!   reopen               drop everything, reopen the collection, check ids = stored docs = index, add accepted
+//!
+//! * correspondence: every event is translated into a request of the Lean driver `drv_c06`
+//!   (what the poll did at the backend) and the model's answer — lifecycle, read-only flag, result class
+//!   of the call, number of mutations it allows, number of stored objects — is compared with the
+//!   implementation's (`state()`, `stats().read_only`, the returned error, the recorded mutations, a listing).
+//! * oracle (independent of the model): the property's own conditions on the recorded mutation log.
+mod store;
+
+use anda_db::{
+    collection::{Collection, CollectionConfig},
+    database::{AndaDB, DBConfig},
+    error::{CollectionState, DBError},
+    query::{Filter, RangeQuery},
+    schema::{AndaDBSchema, Fv},
+    storage::StorageConfig,
+};
+use futures::StreamExt;
+use object_store::{ObjectStore, memory::InMemory, path::Path};
+use serde::{Deserialize, Serialize};
+use std::collections::{BTreeMap, BTreeSet};
+use std::future::Future;
+use std::pin::Pin;
+use std::sync::Arc;
+use std::sync::atomic::Ordering;
+use std::task::Poll;
+use store::*;
+use vh_common::serde_json::json;
+use vh_common::*;
+
+#[derive(Debug, Clone, Serialize, Deserialize, AndaDBSchema)]
+struct Doc {
+    _id: u64,
+    a: u64,
+    txt: String,
+}
+
+const DB: &str = "c06";
+const COLL: &str = "c";
+const PREFIX: &str = "c06/c/";
+const GUARDED: [&str; 9] = ["add", "update:1", "remove:3", "save_ext", "remove_ext", "flush", "compact_btree", "compact_bm25", "reconcile"];
+const ALL_APIS: [&str; 12] = [
+    "add", "update:2", "remove:2", "flush", "close", "save_ext", "remove_ext", "compact_btree", "compact_bm25", "reconcile",
+    "delete_collection", "close_collection",
+];
+
+type OpFut = Pin<Box<dyn Future<Output = Result<(), DBError>>>>;
+
+fn state_name(s: CollectionState) -> &'static str {
+    match s {
+        CollectionState::Active => "active",
+        CollectionState::Closing => "closing",
+        CollectionState::Closed => "closed",
+        CollectionState::Deleting => "deleting",
+        CollectionState::Deleted => "deleted",
+        CollectionState::Poisoned => "poisoned",
+    }
+}
+
+fn classify(r: &Result<(), DBError>) -> String {
+    match r {
+        Ok(()) => "ok".into(),
+        Err(e) => {
+            if let Some(s) = e.collection_state() {
+                format!("rej:state:{}", state_name(s))
+            } else if format!("{e:?}").contains("Collection is read-only") {
+                "rej:ro".into()
+            } else {
+                "err".into()
+            }
+        }
+    }
+}
+
+/// the model thread kind of an API (cross-checked against the generated skeletons at start-up)
+fn model_kind(api: &str) -> &'static str {
+    match api.split(':').next().unwrap() {
+        "add" | "update" | "remove" | "save_ext" | "remove_ext" => "mut-s",
+        "flush" => "mut-xp",
+        "compact_btree" | "compact_bm25" | "reconcile" => "mut-x",
+        "close" | "close_collection" => "close",
+        "delete_collection" => "drop",
+        _ => "?",
+    }
+}
+
+fn is_guarded(api: &str) -> bool {
+    !matches!(model_kind(api), "close" | "drop")
+}
+
+struct Slot {
+    api: String,
+    model_tid: Option<usize>,
+    fut: Option<OpFut>,
+    result: Option<String>,
+    muts: usize,
+    polls: usize,
+    /// the handle refused admission at every moment since the future was first polled
+    always_blocked: bool,
+    dropped: bool,
+}
+
+#[derive(Clone, Debug)]
+struct Fail {
+    key: String,
+    what: String,
+    expected: String,
+    observed: String,
+}
+
+struct World {
+    mem: Arc<InMemory>,
+    store: Arc<TraceStore>,
+    db: AndaDB,
+    coll: Arc<Collection>,
+    slots: Vec<Slot>,
+    ords: BTreeMap<String, usize>,
+    /// (request to the model, answer of the implementation)
+    lines: Vec<(String, String)>,
+    fails: Vec<Fail>,
+    model_next_tid: usize,
+    log_pos: usize,
+    seen_retired: bool,
+    delete_returned_ok: bool,
+    registered: bool,
+    // statistics
+    total_muts: usize,
+    rejected: usize,
+    drops: usize,
+    polls: usize,
+    hist: BTreeMap<String, u64>,
+}
+
+async fn list_prefix(mem: &InMemory) -> Vec<String> {
+    let mut v: Vec<String> = mem
+        .list(Some(&Path::from(format!("{DB}/{COLL}"))))
+        .filter_map(|m| async move { m.ok().map(|m| m.location.to_string()) })
+        .collect()
+        .await;
+    v.sort();
+    v
+}
+
+impl World {
+    async fn setup(ndocs: usize, flushed: bool, pending_update: bool) -> Result<World, String> {
+        let mem = Arc::new(InMemory::new());
+        let store = Arc::new(TraceStore::new(mem.clone(), PREFIX));
+        let db = AndaDB::connect(
+            store.clone(),
+            DBConfig { name: DB.into(), description: String::new(), storage: StorageConfig { compress_level: 0, ..Default::default() }, lock: None },
+        )
+        .await
+        .map_err(|e| format!("connect: {e:?}"))?;
+        let coll = db
+            .open_or_create_collection(Doc::schema().map_err(|e| format!("schema: {e:?}"))?, CollectionConfig { name: COLL.into(), description: String::new() }, async |c| {
+                c.create_btree_index_nx(&["a"]).await?;
+                c.create_bm25_index_nx(&["txt"]).await?;
+                Ok(())
+            })
+            .await
+            .map_err(|e| format!("create: {e:?}"))?;
+        for i in 0..ndocs {
+            coll.add_from(&Doc { _id: 0, a: (i % 3) as u64, txt: format!("alpha w{i}") }).await.map_err(|e| format!("add: {e:?}"))?;
+        }
+        coll.save_extension("k".into(), Fv::U64(1)).await.map_err(|e| format!("save_extension: {e:?}"))?;
+        if flushed {
+            coll.flush(anda_db::unix_ms()).await.map_err(|e| format!("flush: {e:?}"))?;
+        }
+        if pending_update && ndocs >= 1 {
+            coll.update(1, BTreeMap::from([("a".to_string(), Fv::U64(5))])).await.map_err(|e| format!("update: {e:?}"))?;
+        }
+        let mut w = World {
+            mem, store, db, coll, slots: vec![], ords: BTreeMap::new(), lines: vec![], fails: vec![], model_next_tid: 0, log_pos: 0,
+            seen_retired: false, delete_returned_ok: false, registered: true, total_muts: 0, rejected: 0, drops: 0, polls: 0, hist: BTreeMap::new(),
+        };
+        w.log_pos = w.store.trace.log.lock().unwrap().len();
+        let objs = list_prefix(&w.mem).await;
+        let ords: Vec<usize> = objs.iter().map(|p| w.ord(p)).collect();
+        w.lines.push((format!("reset {}", if ords.is_empty() { "-".into() } else { join(ords, ",") }), "ok".into()));
+        Ok(w)
+    }
+
+    fn ord(&mut self, path: &str) -> usize {
+        let n = self.ords.len();
+        *self.ords.entry(path.to_string()).or_insert(n)
+    }
+
+    fn hit(&mut self, k: &str) {
+        *self.hist.entry(k.to_string()).or_insert(0) += 1;
+    }
+
+    fn blocked_now(&self) -> bool {
+        self.coll.state() != CollectionState::Active || self.coll.stats().read_only
+    }
+
+    async fn answer(&self, status: &str, w: usize) -> String {
+        let objs = list_prefix(&self.mem).await.len();
+        format!("{status} lc={} ro={} w={w} objs={objs}", state_name(self.coll.state()), if self.coll.stats().read_only { 1 } else { 0 })
+    }
+
+    fn fail(&mut self, key: &str, what: &str, expected: &str, observed: &str) {
+        self.fails.push(Fail { key: key.into(), what: what.into(), expected: expected.into(), observed: observed.into() });
+    }
+
+    /// bookkeeping after every event: blocked-ness of the live futures, monotonicity of the lifecycle
+    fn after_event(&mut self) {
+        let blocked = self.blocked_now();
+        for s in self.slots.iter_mut() {
+            if s.fut.is_some() && s.polls > 0 && !blocked {
+                s.always_blocked = false;
+            }
+        }
+        let st = self.coll.state();
+        if st != CollectionState::Active {
+            self.seen_retired = true;
+        } else if self.seen_retired {
+            self.fail("lifecycle:back-to-active", "a handle that had left ACTIVE is ACTIVE again", "state != active", "active");
+        }
+    }
+
+    fn make_future(&self, api: &str) -> Result<OpFut, String> {
+        let c = self.coll.clone();
+        let db = self.db.clone();
+        let (name, arg) = match api.split_once(':') {
+            Some((n, a)) => (n, a.parse::<u64>().map_err(|_| format!("bad api {api}"))?),
+            None => (api, 0),
+        };
+        Ok(match name {
+            "add" => Box::pin(async move { c.add_from(&Doc { _id: 0, a: 7, txt: "beta gamma".into() }).await.map(|_| ()) }),
+            "update" => Box::pin(async move { c.update(arg, BTreeMap::from([("a".to_string(), Fv::U64(9))])).await.map(|_| ()) }),
+            "remove" => Box::pin(async move { c.remove(arg).await.map(|_| ()) }),
+            "flush" => Box::pin(async move { c.flush(anda_db::unix_ms()).await.map(|_| ()) }),
+            "close" => Box::pin(async move { c.close().await }),
+            "save_ext" => Box::pin(async move { c.save_extension("k2".into(), Fv::U64(2)).await }),
+            "remove_ext" => Box::pin(async move { c.remove_extension("k").await.map(|_| ()) }),
+            "compact_btree" => Box::pin(async move { c.compact_btree_index(&["a"]).await }),
+            "compact_bm25" => Box::pin(async move { c.compact_bm25_index(&["txt"]).await }),
+            "reconcile" => Box::pin(async move { c.reconcile_storage().await.map(|_| ()) }),
+            "delete_collection" => Box::pin(async move { db.delete_collection(COLL).await }),
+            "close_collection" => Box::pin(async move { db.close_collection(COLL).await }),
+            _ => return Err(format!("unknown api {api}")),
+        })
+    }
+
+    fn spawn(&mut self, api: &str) -> Result<usize, String> {
+        let fut = self.make_future(api)?;
+        // database-level short cuts that never touch the handle are outside the handle model
+        let db_ro = self.db.is_read_only();
+        let modelled = match api {
+            "delete_collection" => !db_ro && self.registered,
+            "close_collection" => self.registered,
+            _ => true,
+        };
+        let model_tid = if modelled {
+            let t = self.model_next_tid;
+            self.model_next_tid += 1;
+            self.lines.push((format!("spawn {}", model_kind(api)), format!("t{t}")));
+            Some(t)
+        } else {
+            None
+        };
+        self.hit(&format!("op:{}", api.split(':').next().unwrap()));
+        self.slots.push(Slot { api: api.into(), model_tid, fut: Some(fut), result: None, muts: 0, polls: 0, always_blocked: true, dropped: false });
+        Ok(self.slots.len() - 1)
+    }
+
+    /// the backend calls performed since `log_pos`, as model acts + number of prefix mutations + progress outside
+    fn take_acts(&mut self) -> (Vec<String>, usize, bool) {
+        let recs: Vec<Rec> = { self.store.trace.log.lock().unwrap()[self.log_pos..].to_vec() };
+        self.log_pos += recs.len();
+        let mut acts = vec![];
+        let mut muts = 0;
+        let mut outside = false;
+        for r in recs {
+            if !r.path.starts_with(PREFIX) && r.path != format!("{DB}/{COLL}") {
+                outside = true;
+                continue;
+            }
+            match r.kind {
+                Kind::Get | Kind::List => acts.push("r".to_string()),
+                Kind::Put => {
+                    muts += 1;
+                    let o = self.ord(&r.path);
+                    acts.push(format!("+{o}"));
+                }
+                Kind::Del => {
+                    muts += 1;
+                    let o = self.ord(&r.path);
+                    acts.push(format!("-{o}"));
+                }
+            }
+        }
+        (acts, muts, outside)
+    }
+
+    async fn poll(&mut self, i: usize) -> Result<bool, String> {
+        if i >= self.slots.len() {
+            return Err(format!("no slot {i}"));
+        }
+        if self.slots[i].fut.is_none() {
+            return Ok(true);
+        }
+        let state_before = self.coll.state();
+        let blocked_before = self.blocked_now();
+        let started0 = self.store.trace.started.load(Ordering::SeqCst);
+        let started_in0 = self.store.trace.started_in.load(Ordering::SeqCst);
+        if self.slots[i].polls == 0 {
+            self.slots[i].always_blocked = blocked_before;
+        } else if !blocked_before {
+            self.slots[i].always_blocked = false;
+        }
+        self.slots[i].polls += 1;
+        self.polls += 1;
+        self.store.trace.pending_once.store(true, Ordering::SeqCst);
+        let res = {
+            let fut = self.slots[i].fut.as_mut().unwrap();
+            futures::poll!(fut.as_mut())
+        };
+        self.store.trace.pending_once.store(false, Ordering::SeqCst);
+        let (acts, muts, outside) = self.take_acts();
+        let started = self.store.trace.started.load(Ordering::SeqCst) - started0;
+        let started_in = self.store.trace.started_in.load(Ordering::SeqCst) - started_in0;
+        let flag = if started_in > 0 || !acts.is_empty() { "g" } else if started > 0 || outside { "o" } else { "b" };
+        self.slots[i].muts += muts;
+        self.total_muts += muts;
+        let api = self.slots[i].api.clone();
+        // ---- oracle: silence once CLOSED / DELETED
+        if muts > 0 {
+            let is_delete = api == "delete_collection";
+            if state_before == CollectionState::Deleted || (state_before == CollectionState::Closed && !is_delete) {
+                self.fail(
+                    &format!("write-after-{}:{}", state_name(state_before), api.split(':').next().unwrap()),
+                    "a call changed objects under the collection prefix although the handle was already closed / deleted",
+                    "no mutation under the prefix",
+                    &format!("{muts} mutation(s): {}", acts.join(",")),
+                );
+            }
+        }
+        let (fin, status) = match res {
+            Poll::Pending => ("p".to_string(), "pending".to_string()),
+            Poll::Ready(r) => {
+                let cl = classify(&r);
+                self.slots[i].fut = None;
+                self.slots[i].result = Some(cl.clone());
+                if api == "delete_collection" && r.is_ok() {
+                    self.delete_returned_ok = true;
+                    self.registered = false;
+                }
+                if api == "close_collection" && r.is_ok() {
+                    self.registered = false;
+                }
+                if cl.starts_with("rej") {
+                    self.rejected += 1;
+                }
+                self.hit(&format!("result:{}", cl.split(':').take(2).collect::<Vec<_>>().join(":")));
+                ((if r.is_ok() { "ok" } else { "err" }).to_string(), cl)
+            }
+        };
+        // ---- oracle: a guarded call that only ever saw a refusing handle is rejected and silent
+        if fin != "p" && is_guarded(&api) && self.slots[i].always_blocked {
+            let s = &self.slots[i];
+            if s.muts > 0 || fin == "ok" {
+                let (m, r) = (s.muts, s.result.clone().unwrap_or_default());
+                self.fail(
+                    &format!("refusing-handle-admitted:{}", api.split(':').next().unwrap()),
+                    "a mutating call made while the handle was read-only / closing / closed / deleting / deleted / poisoned was not rejected or wrote",
+                    "rejected, 0 mutations",
+                    &format!("result {r}, {m} mutation(s)"),
+                );
+            }
+        }
+        // ---- oracle: delete_collection returned Ok ⇒ nothing left
+        if fin == "ok" && api == "delete_collection" {
+            let left = list_prefix(&self.mem).await;
+            if !left.is_empty() || self.coll.state() != CollectionState::Deleted && self.slots[i].model_tid.is_some() {
+                self.fail("delete:leftover", "delete_collection returned Ok but objects remain under the prefix / handle not DELETED", "empty prefix, state deleted", &format!("{} object(s), state {}", left.len(), state_name(self.coll.state())));
+            }
+        }
+        if let Some(t) = self.slots[i].model_tid {
+            let ans = self.answer(&status, muts).await;
+            self.lines.push((format!("poll {t} {flag} {} {fin}", if acts.is_empty() { "-".to_string() } else { acts.join(",") }), ans));
+        }
+        self.after_event();
+        Ok(fin != "p")
+    }
+
+    async fn run(&mut self, i: usize) -> Result<(), String> {
+        for _ in 0..400 {
+            if self.poll(i).await? {
+                return Ok(());
+            }
+        }
+        // not finishing is legitimate only when it waits for another live future (gate / name lock)
+        Ok(())
+    }
+
+    async fn drop_slot(&mut self, i: usize) -> Result<(), String> {
+        if i >= self.slots.len() {
+            return Err(format!("no slot {i}"));
+        }
+        if self.slots[i].fut.is_none() {
+            return Ok(());
+        }
+        let polled = self.slots[i].polls > 0;
+        self.slots[i].fut = None; // drops the future
+        self.slots[i].dropped = true;
+        self.drops += 1;
+        let (acts, muts, _) = self.take_acts();
+        if muts > 0 {
+            self.fail("drop:wrote", "dropping a future performed backend mutations", "none", &acts.join(","));
+        }
+        // ---- oracle: cancel = crash: a partial effect implies the handle is no longer ACTIVE
+        let s = &self.slots[i];
+        if s.muts > 0 && self.coll.state() == CollectionState::Active {
+            let (api, m) = (s.api.clone(), s.muts);
+            self.fail(
+                &format!("cancel-left-active:{}", api.split(':').next().unwrap()),
+                "a mutating call was dropped after it had changed stored objects and the handle is still ACTIVE",
+                "state != active (poisoned)",
+                &format!("{m} mutation(s) performed, state active"),
+            );
+        }
+        self.hit(if polled { "drop:polled" } else { "drop:unpolled" });
+        if let Some(t) = self.slots[i].model_tid {
+            let ans = self.answer("dropped", 0).await;
+            self.lines.push((format!("drop {t}"), ans));
+        }
+        self.after_event();
+        Ok(())
+    }
+
+    async fn setro(&mut self, b: bool) {
+        let before = (self.coll.state(), self.db.is_read_only());
+        self.coll.set_read_only(b);
+        self.model_next_tid += 1;
+        // `ignored` is decided by the harness from the documented rule; the model decides it from its own state
+        let status = if !b && (before.0 != CollectionState::Active || before.1) { "ignored" } else { "ok" };
+        let ans = self.answer(status, 0).await;
+        self.lines.push((format!("setro {}", b as u8), ans));
+        self.hit("op:setro");
+        self.after_event();
+    }
+
+    async fn dbro(&mut self, b: bool) {
+        let before = self.coll.state();
+        self.db.set_read_only(b);
+        self.model_next_tid += 1;
+        if self.registered {
+            let status = if !b && before != CollectionState::Active { "ignored" } else { "ok" };
+            let ans = self.answer(status, 0).await;
+            self.lines.push((format!("dbro {}", b as u8), ans));
+        } else {
+            // an unregistered handle only sees the shared database flag: in the model that is the first half of dbSetRo;
+            // not compared (the model would also run the collection half)
+            self.model_next_tid -= 1;
+            self.lines.push(("state".into(), "skip".into()));
+        }
+        self.hit("op:dbro");
+        self.after_event();
+    }
+
+    async fn sweep(&mut self) -> Result<(), String> {
+        for api in GUARDED {
+            let i = self.spawn(api)?;
+            self.run(i).await?;
+            if self.slots[i].fut.is_some() {
+                // parked behind a live future of the case: leave it queued
+                continue;
+            }
+        }
+        Ok(())
+    }
+
+    /// Everything is dropped, the collection is reopened through the same database.
+    async fn reopen(&mut self) -> Result<(), String> {
+        for i in 0..self.slots.len() {
+            self.drop_slot(i).await?;
+        }
+        if self.db.is_read_only() {
+            self.dbro(false).await;
+        }
+        let st = self.coll.state();
+        if st == CollectionState::Deleting && !self.delete_returned_ok {
+            // a cancelled delete: a retry takes over (tombstone + DELETING handle are still registered)
+            let r = self.db.delete_collection(COLL).await;
+            self.take_acts();
+            if r.is_err() {
+                self.fail("delete:retry-failed", "retrying a cancelled delete_collection failed", "Ok", &format!("{r:?}"));
+                return Ok(());
+            }
+            self.delete_returned_ok = true;
+        }
+        if self.delete_returned_ok {
+            let left = list_prefix(&self.mem).await;
+            if !left.is_empty() {
+                self.fail("delete:leftover-at-end", "objects exist under the prefix of a deleted collection at the end of the case", "empty prefix", &left.join(","));
+            }
+            let r = self.db.open_collection(COLL.to_string(), async |_| Ok(())).await;
+            if r.is_ok() {
+                self.fail("delete:reopenable", "a deleted collection can be opened", "NotFound", "Ok");
+            }
+            self.take_acts();
+            self.hit("reopen:deleted");
+            return Ok(());
+        }
+        let c2 = match self.db.open_collection(COLL.to_string(), async |_| Ok(())).await {
+            Ok(c) => c,
+            Err(e) => {
+                self.fail("reopen:failed", "reopening the collection after the case failed", "Ok", &format!("{e:?} (old handle {})", state_name(st)));
+                return Ok(());
+            }
+        };
+        self.take_acts();
+        if st != CollectionState::Active && Arc::ptr_eq(&c2, &self.coll) {
+            self.fail("reopen:same-retired-handle", "open_collection returned the retired handle", "a fresh handle", state_name(st));
+        }
+        if c2.state() != CollectionState::Active {
+            self.fail("reopen:not-active", "the reopened handle is not ACTIVE", "active", state_name(c2.state()));
+        }
+        // ids = stored documents
+        let ids: BTreeSet<u64> = c2.ids().into_iter().collect();
+        let stored: BTreeSet<u64> = list_prefix(&self.mem)
+            .await
+            .iter()
+            .filter_map(|p| p.strip_prefix(&format!("{PREFIX}data/")).and_then(|r| r.strip_suffix(".cbor")).and_then(|n| n.parse().ok()))
+            .collect();
+        if ids != stored {
+            self.fail("reopen:ids-vs-docs", "after reopen the id set differs from the stored documents", &format!("{stored:?}"), &format!("{ids:?}"));
+        }
+        // index = documents (B-tree on `a`)
+        let mut by_a: BTreeMap<u64, BTreeSet<u64>> = BTreeMap::new();
+        for id in &ids {
+            match c2.get_as::<Doc>(*id).await {
+                Ok(d) => {
+                    by_a.entry(d.a).or_default().insert(*id);
+                }
+                Err(e) => self.fail("reopen:get", "a listed id is not fetchable after reopen", "Ok", &format!("id {id}: {e:?}")),
+            }
+        }
+        for v in 0..=10u64 {
+            let got: BTreeSet<u64> = c2
+                .query_all_ids(Filter::Field(("a".to_string(), RangeQuery::Eq(Fv::U64(v)))))
+                .await
+                .map_err(|e| format!("query: {e:?}"))?
+                .into_iter()
+                .collect();
+            let exp = by_a.get(&v).cloned().unwrap_or_default();
+            if got != exp {
+                self.fail("reopen:index-vs-docs", "after reopen the B-tree index on `a` disagrees with the stored documents", &format!("a={v}: {exp:?}"), &format!("{got:?}"));
+            }
+        }
+        // a new write is accepted
+        match c2.add_from(&Doc { _id: 0, a: 8, txt: "delta".into() }).await {
+            Ok(id) => {
+                if ids.contains(&id) || c2.get(id).await.is_err() {
+                    self.fail("reopen:add", "the document added after reopen reuses an id or is not fetchable", "fresh id, fetchable", &format!("id {id}"));
+                }
+            }
+            Err(e) => self.fail("reopen:add-rejected", "a write on the reopened handle was rejected", "Ok", &format!("{e:?}")),
+        }
+        // the old handle is still silent
+        if st != CollectionState::Active {
+            let before = list_prefix(&self.mem).await;
+            let old = self.coll.clone();
+            let _ = old.add_from(&Doc { _id: 0, a: 1, txt: "zombie".into() }).await;
+            let _ = old.flush(anda_db::unix_ms()).await;
+            old.set_read_only(false);
+            let _ = old.save_extension("z".into(), Fv::U64(0)).await;
+            let after = list_prefix(&self.mem).await;
+            let (_, m, _) = self.take_acts();
+            if before != after || m > 0 {
+                self.fail("reopen:old-handle-wrote", "the retired handle wrote after the collection was reopened", "no mutation", &format!("{m} mutation(s)"));
+            }
+        }
+        self.take_acts();
+        self.hit("reopen:ok");
+        Ok(())
+    }
+}
+
+struct CaseOut {
+    lines: Vec<(String, String)>,
+    fails: Vec<Fail>,
+    nontrivial: bool,
+    hist: BTreeMap<String, u64>,
+    polls: usize,
+    /// polls the first slot needed to complete (probe runs)
+    first_slot_polls: usize,
+}
+
+async fn run_case(ops: &[String]) -> Result<CaseOut, String> {
+    let mut w: Option<World> = None;
+    for op in ops {
+        let t: Vec<&str> = op.split(' ').filter(|s| !s.is_empty()).collect();
+        if let ["setup", n, f, p] = t.as_slice() {
+            w = Some(World::setup(n.parse().map_err(|_| "bad setup")?, *f == "1", *p == "1").await?);
+            continue;
+        }
+        let Some(w) = w.as_mut() else { return Err("case must start with setup".into()) };
+        match t.as_slice() {
+            ["op", api] => {
+                w.spawn(api)?;
+            }
+            ["poll", i] => {
+                w.poll(i.parse().map_err(|_| "bad slot")?).await?;
+            }
+            ["run", i] => w.run(i.parse().map_err(|_| "bad slot")?).await?,
+            ["drop", i] => w.drop_slot(i.parse().map_err(|_| "bad slot")?).await?,
+            ["setro", b] => w.setro(*b == "1").await,
+            ["dbro", b] => w.dbro(*b == "1").await,
+            ["fault", s] => *w.store.trace.fail_put_suffix.lock().unwrap() = Some(s.to_string()),
+            ["sweep"] => w.sweep().await?,
+            ["reopen"] => w.reopen().await?,
+            _ => return Err(format!("bad op: {op}")),
+        }
+    }
+    let Some(mut w) = w else { return Err("empty case".into()) };
+    // end of case: a deleted collection stays empty whatever was called afterwards
+    if w.delete_returned_ok {
+        let left = list_prefix(&w.mem).await;
+        if !left.is_empty() {
+            w.fail("delete:recreated", "objects exist under the prefix of a deleted collection at the end of the case", "empty prefix", &left.join(","));
+        }
+    }
+    let first_slot_polls = w.slots.first().map(|s| s.polls).unwrap_or(0);
+    Ok(CaseOut {
+        nontrivial: w.total_muts > 0 && (w.rejected > 0 || w.drops > 0),
+        lines: std::mem::take(&mut w.lines),
+        fails: std::mem::take(&mut w.fails),
+        hist: std::mem::take(&mut w.hist),
+        polls: w.polls,
+        first_slot_polls,
+    })
+}
+
+fn exec(rt: &tokio::runtime::Runtime, ops: &[String]) -> Result<Result<CaseOut, String>, ()> {
+    std::panic::catch_unwind(std::panic::AssertUnwindSafe(|| rt.block_on(run_case(ops)))).map_err(|_| ())
+}
+
+/// Runs one case against implementation, oracle and model; returns (#oracle failures, #disagreements).
+fn check_case(rt: &tokio::runtime::Runtime, name: &str, ops: &[String], model: &mut Option<ModelProc>, rep: &mut Report, record: bool) -> (usize, usize) {
+    let out = match exec(rt, ops) {
+        Ok(Ok(o)) => o,
+        Ok(Err(e)) => {
+            if record {
+                rep.hit("case_error");
+                if rep.notes.len() < 10 {
+                    rep.notes.push(format!("case {name} could not run: {e}"));
+                }
+            }
+            return (0, 0);
+        }
+        Err(()) => {
+            if record {
+                rep.oracle_failure("panic", "the implementation panicked", ops, "no panic", "panic");
+            }
+            return (1, 0);
+        }
+    };
+    let mut nd = 0;
+    if let Some(m) = model.as_mut() {
+        let mut ctx: Vec<String> = vec![];
+        for (req, ans) in &out.lines {
+            ctx.push(req.clone());
+            let got = m.ask(req);
+            if record {
+                rep.model_compared += 1;
+            }
+            if ans != "skip" && &got != ans {
+                nd += 1;
+                if record {
+                    let mut c = ops.to_vec();
+                    c.push("# model requests:".into());
+                    c.extend(ctx.iter().cloned());
+                    rep.disagreement(&format!("case {name}: answer to `{req}`"), &c, &got, ans);
+                }
+                break;
+            }
+        }
+    }
+    if record {
+        for f in &out.fails {
+            rep.oracle_failure(&f.key, &f.what, ops, &f.expected, &f.observed);
+        }
+        for (k, v) in &out.hist {
+            rep.hit_n(k, *v);
+        }
+        rep.hit_n("polls", out.polls as u64);
+        rep.case(&ops.join("|"), out.nontrivial);
+    }
+    (out.fails.len(), nd)
+}
+
+const SETUPS: [&str; 3] = ["setup 3 0 0", "setup 3 1 0", "setup 4 1 1"];
+
+fn gen_random(r: &mut Rng) -> Vec<String> {
+    let mut ops = vec![r.pick(&SETUPS).to_string()];
+    let inflight = ["add", "update:2", "remove:2", "save_ext", "remove_ext", "flush", "compact_btree", "reconcile"];
+    let transitions = ["close", "delete_collection", "close_collection", "setro1", "dbro1", "poison"];
+    let n_before = r.usize(3); // 0..2 operations in flight before the transition
+    let mut live: Vec<usize> = vec![];
+    let mut next = 0usize;
+    for _ in 0..n_before {
+        // distinct document ids so that no two futures park on the same per-document lock
+        let api = *r.pick(&inflight);
+        if ops.iter().any(|o| o.ends_with(api) && api.contains(':')) {
+            continue;
+        }
+        ops.push(format!("op {api}"));
+        for _ in 0..r.usize(4) {
+            ops.push(format!("poll {next}"));
+        }
+        live.push(next);
+        next += 1;
+    }
+    match *r.pick(&transitions) {
+        "setro1" => ops.push("setro 1".into()),
+        "dbro1" => ops.push("dbro 1".into()),
+        "poison" => {
+            ops.push("op add".into());
+            for _ in 0..1 + r.usize(3) {
+                ops.push(format!("poll {next}"));
+            }
+            ops.push(format!("drop {next}"));
+            next += 1;
+        }
+        t => {
+            ops.push(format!("op {t}"));
+            for _ in 0..r.usize(3) {
+                ops.push(format!("poll {next}"));
+            }
+            live.push(next);
+            next += 1;
+        }
+    }
+    // 0..2 operations queued behind the transition
+    for _ in 0..r.usize(3) {
+        let api = *r.pick(&inflight);
+        if ops.iter().any(|o| o.ends_with(api) && api.contains(':')) {
+            continue;
+        }
+        ops.push(format!("op {api}"));
+        if r.chance(1, 2) {
+            ops.push(format!("poll {next}"));
+        }
+        live.push(next);
+        next += 1;
+    }
+    // random schedule: poll / run / drop
+    let steps = r.usize(14);
+    for _ in 0..steps {
+        if live.is_empty() {
+            break;
+        }
+        let i = *r.pick(&live);
+        match r.below(10) {
+            0 => ops.push(format!("drop {i}")),
+            1 | 2 => ops.push(format!("run {i}")),
+            3 => ops.push(format!("setro {}", r.below(2))),
+            4 => ops.push(format!("dbro {}", r.below(2))),
+            _ => ops.push(format!("poll {i}")),
+        }
+    }
+    // let everything finish in a random order, then call every API on the retained handle
+    let mut order = live.clone();
+    r.shuffle(&mut order);
+    for i in order {
+        ops.push(format!("run {i}"));
+    }
+    ops.push("sweep".into());
+    if r.chance(1, 2) {
+        ops.push("setro 0".into());
+        ops.push("dbro 0".into());
+        ops.push("sweep".into());
+    }
+    ops.push("reopen".into());
+    ops
+}
+
 fn main() {
-    let a = vh_common::Args::parse();
-    let r = vh_common::Report::new("C06", &a, "stub");
-    r.write(&a);
+    let args = Args::parse();
+    let mut rep = Report::new(
+        "C06",
+        &args,
+        "case = real AndaDB + Collection over a recording store whose every backend call is Pending once; futures are polled by hand. \
+         Families: (A) every mutating API x every poll count k at which the future is dropped (exhaustive), then every API on the retained handle, then reopen; \
+         (B) every transition (read-only, db read-only, close, close_collection, delete_collection, poison by cancellation / injected flush fault) then every API, re-enable attempts, reopen; \
+         (C) random interleavings of 0-2 in-flight + a transition + 0-2 queued operations under random poll/drop schedules. \
+         distinct = distinct op list; non-trivial = at least one backend mutation under the prefix was performed by an API future and at least one call was rejected or one future dropped",
+    );
+    let rt = tokio::runtime::Builder::new_current_thread().enable_all().build().unwrap();
+    let mut model = ModelProc::from_args(&args);
+
+    // the model kind used for each API must be what the generated skeleton says
+    if let Some(m) = model.as_mut() {
+        for (method, want) in [
+            ("add", "self guarded gate=s"), ("update", "self guarded gate=s"), ("remove", "self guarded gate=s"),
+            ("save_extension", "self guarded gate=s"), ("remove_extension", "self guarded gate=s"),
+            ("flush", "self guarded gate=x"), ("compact_btree_index", "self guarded gate=x"), ("compact_bm25_index", "self guarded gate=x"),
+            ("reconcile_storage", "self guarded gate=x"), ("close", "self close gate=x"), ("drop_data", "self drop gate=x"),
+            ("add_from", "self delegates gate=-"), ("create_btree_index", "mutself checks-first gate=-"),
+        ] {
+            let a = m.ask(&format!("skel {method}"));
+            rep.model_compared += 1;
+            if !a.starts_with(want) || !a.ends_with("ok=1") {
+                rep.disagreement("guard skeleton class of a Collection method", &[format!("skel {method}")], &a, &format!("{want} … ok=1"));
+            }
+        }
+    }
+
+    let mut cases: Vec<(String, Vec<String>)> = vec![];
+    if let Some(p) = &args.replay {
+        let ops: Vec<String> = read_replay(p).into_iter().filter(|l| !l.starts_with('#')).take_while(|l| !l.starts_with("# model")).collect();
+        cases.push(("replay".into(), ops));
+    } else {
+        if let Some(dir) = &args.corpus {
+            cases.extend(read_corpus(dir));
+        }
+        // (A) cancel at every poll count
+        let setups: &[&str] = if args.thorough() || args.focus.is_some() { &SETUPS } else { &SETUPS[..2] };
+        for setup in setups {
+            for api in ALL_APIS {
+                let probe = vec![setup.to_string(), format!("op {api}"), "run 0".to_string()];
+                let n = match exec(&rt, &probe) {
+                    Ok(Ok(o)) => o.first_slot_polls,
+                    _ => 12,
+                };
+                rep.hit_n(&format!("polls-to-complete:{api}"), n as u64);
+                for k in 0..=n {
+                    let mut ops = vec![setup.to_string(), format!("op {api}")];
+                    ops.extend((0..k).map(|_| "poll 0".to_string()));
+                    ops.push("drop 0".into());
+                    ops.push("sweep".into());
+                    ops.push("reopen".into());
+                    cases.push((format!("cancel:{api}:{k}"), ops));
+                }
+            }
+        }
+        // (B) transitions, then every API
+        for setup in setups {
+            for tr in ["setro 1", "dbro 1", "op close|run 0", "op close_collection|run 0", "op delete_collection|run 0",
+                "op add|poll 0|poll 0|drop 0", "fault ids.cbor|op flush|run 0", "fault meta.cbor|op close|run 0", "fault ids.cbor|op close_collection|run 0",
+                "op close|poll 0|drop 0|op close|run 1", "op delete_collection|poll 0|poll 0|poll 0|drop 0"] {
+                let mut ops = vec![setup.to_string()];
+                ops.extend(tr.split('|').map(|s| s.to_string()));
+                ops.push("sweep".into());
+                ops.push("setro 0".into());
+                ops.push("dbro 0".into());
+                ops.push("sweep".into());
+                ops.push("reopen".into());
+                cases.push((format!("transition:{tr}"), ops));
+            }
+        }
+        // (C) random interleavings
+        let n = args.budget(1500, 60000);
+        for i in 0..n {
+            let mut r = Rng::for_case(args.seed, i);
+            cases.push((format!("gen{i}"), gen_random(&mut r)));
+        }
+    }
+    for (name, ops) in &cases {
+        let before = rep.oracle_failures.len();
+        let (nf, _) = check_case(&rt, name, ops, &mut model, &mut rep, true);
+        if nf > 0 && rep.oracle_failures.len() > before && args.replay.is_none() {
+            let key = rep.oracle_failures[before]["key"].as_str().unwrap_or("").to_string();
+            let small = shrink(
+                ops.clone(),
+                |cand| {
+                    cand.first().is_some_and(|o| o.starts_with("setup"))
+                        && matches!(exec(&rt, cand), Ok(Ok(o)) if o.fails.iter().any(|f| f.key == key))
+                },
+                120,
+            );
+            if let Ok(Ok(o)) = exec(&rt, &small)
+                && let Some(f) = o.fails.iter().find(|f| f.key == key)
+            {
+                rep.oracle_failures.truncate(before);
+                rep.oracle_failure(&f.key, &f.what, &small, &f.expected, &f.observed);
+                if let Some(last) = rep.oracle_failures.last_mut() {
+                    last["case"] = json!(name);
+                }
+            }
+        }
+        if rep.samples.len() < 4 && (name.starts_with("gen") || name.starts_with("cancel:update")) {
+            rep.sample(json!({"case": name, "ops": ops}));
+        }
+    }
+    rep.write(&args);
 }
